@@ -1,7 +1,8 @@
 open Datatypes
 open Drv
 (* ---- C09 ---- c09 <nmods> module*
-     module  := <name> <sub 0|1> <prefix> <belongs> <nimports> (<prefix> <module>)* <nincludes> <name>* scope
+     module  := <name> <sub 0|1> <revision> <prefix> <belongs> <nimports> (<prefix> <module> <revision-date|N>)*
+                <nincludes> (<name> <revision-date|N>)* scope
      scope   := <ntypedefs> typedef* <nkids> scope* <nleaves> leaf*
      typedef := <name> <units|N> <default|N> tref
      leaf    := <name> tref
@@ -77,13 +78,15 @@ let rec read_scope () =
 let read_module () =
   let name = next_str () in
   let sub = (next () = "1") in
+  let rev = next_str () in
   let prefix = next_str () in
   let belongs = next_str () in
   let n = next_int () in
-  let imports = times n (fun () -> let p = next_str () in let m = next_str () in (p, m)) in
-  let includes = next_strs () in
+  let imports = times n (fun () -> let p = next_str () in let m = next_str () in let r = next_ostr () in (p, (m, r))) in
+  let n = next_int () in
+  let includes = times n (fun () -> let m = next_str () in let r = next_ostr () in (m, r)) in
   let top = read_scope () in
-  { Types.m_name = name; m_sub = sub; m_prefix = prefix; m_belongs = belongs; m_imports = imports;
+  { Types.m_name = name; m_sub = sub; m_rev = rev; m_prefix = prefix; m_belongs = belongs; m_imports = imports;
     m_includes = includes; m_top = top }
 
 let q s = "\"" ^ s ^ "\""
